@@ -280,6 +280,164 @@ def finder_job(args):
             "sig": "variant=%s" % variant}
 
 
+# ---------------------------------------------------------------------------------------
+# the tree universe: TLC chooses the specifications
+
+def tree_systems(run: Run, tier: str, seed: int):
+    """Every productive system with two internal classes (thorough: also a random part of those with three), exported by TLC."""
+    out = []
+    for ni, sample, label in ((2, 0, "2 internal classes, all"),) + (((3, 14, "3 internal classes, nodes from random subsets of 14"),) if tier == "thorough" else
+                                                                      ((3, 8, "3 internal classes, nodes from random subsets of 8"),)):
+        cfg = tlc.read_spec("MC_TreeSystems.cfg").replace("CONSTANT NI = 2", "CONSTANT NI = %d" % ni).replace("CONSTANT Sample = 0", "CONSTANT Sample = %d" % sample)
+        wd = run.wd + "/trees%d" % ni
+        import os
+        os.makedirs(wd, exist_ok=True)
+        tlc.write_module(wd, "MC_TreeSystems", tlc.read_spec("MC_TreeSystems.tla"), cfg)
+        r = tlc.require_ok(tlc.run_tlc(wd, "MC_TreeSystems", workers=1, timeout=3000, seed=seed + 5), "MC_TreeSystems " + label)
+        run.add_tlc(r, "MC_TreeSystems: productive systems exported, " + label)
+        got = [json.loads(tlc.parse_tla_value(ln)[1]) for ln in r.printed if ln.startswith('<<"H"')]
+        if r.out.count('<<"H"') != len(got):
+            raise tlc.MachineryError("interleaved PrintT output in MC_TreeSystems")
+        out += got
+    return out
+
+
+def tree_pair_job(args):
+    """Two TLC-chosen systems -> the real specifications -> isomorphism test both ways, reflexivity, bijection tables."""
+    tid, dA, dB, max_n = args
+    from ..universes import trees as T
+    from comb_spec_searcher.isomorphism import Bijection, Isomorphism
+
+    sa = tuple((n["k"], tuple(n["ch"]), n["sz"]) for n in dA["sys"])
+    sb = tuple((n["k"], tuple(n["ch"]), n["sz"]) for n in dB["sys"])
+    events = [{"op": "counts", "side": "A", "got": [len(T.objects(sa, 1, n)) for n in range(max_n + 1)]},
+              {"op": "counts", "side": "B", "got": [len(T.objects(sb, 1, n)) for n in range(max_n + 1)]}]
+    try:
+        sp1, sp2 = T.specification(sa, 1, "A"), T.specification(sb, 1, "B")
+    except Exception as e:
+        raise tlc.MachineryError("the library refused a well-formed tree system %r / %r: %r" % (sa, sb, e))
+    ev = {"op": "check", "ab": tf(lambda: Isomorphism.check(sp1, sp2)), "ba": tf(lambda: Isomorphism.check(sp2, sp1))}
+    events.append(ev)
+    events.append({"op": "reflexive", "atoms_only": True, "res": tf(lambda: Isomorphism.check(sp1, sp1))})
+    events.append({"op": "bisim", "ans": ev["ab"]})
+    nb = 0
+    try:
+        b = Bijection.construct(sp1, sp2)
+    except Exception as e:
+        b = None
+        events.append({"op": "check", "ab": "construct:" + type(e).__name__, "ba": ev["ba"]})
+    if b is not None:
+        nb = 1
+        for n in range(max_n + 1):
+            fwd, inv, failed = [], [], ""
+            for o in T.objects(sa, 1, n):
+                try:
+                    fwd.append([T.enc(o), T.enc(b.map(o))])
+                except Exception as e:
+                    failed = failed or "map:" + type(e).__name__
+                    fwd.append([T.enc(o), ["x", 0, 0, []]])
+            for o in T.objects(sb, 1, n):
+                try:
+                    inv.append([T.enc(o), T.enc(b.inverse_map(o))])
+                except Exception as e:
+                    failed = failed or "inverse:" + type(e).__name__
+                    inv.append([T.enc(o), ["x", 0, 0, []]])
+            events.append({"op": "tbij", "n": n, "fwd": fwd, "inv": inv, "failed": failed})
+    return {"tid": tid, "A": dA["sys"], "B": dB["sys"], "events": events, "nbij": nb, "sig": "tree-universe"}
+
+
+def tree_gen_job(args):
+    """Counting and generation from the real specification of one TLC-chosen system."""
+    tid, d, max_n, what = args
+    from ..universes import trees as T
+
+    sa = tuple((n["k"], tuple(n["ch"]), n["sz"]) for n in d["sys"])
+    sp = T.specification(sa, 1, "A")
+    events = []
+    for n in range(max_n + 1):
+        if "count" in what:
+            try:
+                events.append({"op": "tcount", "n": n, "cnt": int(sp.count_objects_of_size(n)), "error": ""})
+            except Exception as e:
+                events.append({"op": "tcount", "n": n, "cnt": -1, "error": type(e).__name__})
+        if "gen" in what:
+            try:
+                events.append({"op": "tgen", "n": n, "objs": [T.enc(o) for o in sp.generate_objects_of_size(n)], "error": ""})
+            except Exception as e:
+                events.append({"op": "tgen", "n": n, "objs": [], "error": type(e).__name__})
+    return {"tid": tid, "A": d["sys"], "events": events, "sig": "tree-universe"}
+
+
+def tree_gen_traces(run: Run, tier: str, seed: int, what):
+    """TLC-chosen specifications through counting / generation, judged against TreeUniverse.tla."""
+    systems = tree_systems(run, tier, seed)
+    res = pmap(tree_gen_job, [("g%d" % i, d, 5 if len(d["sys"]) <= 4 else 4, what) for i, d in enumerate(systems)], procs=16, chunk=16)
+    for r in res:
+        run.events += len(r["events"])
+        run.nt("tree:" + r["tid"])
+    run.extra["tree_universe_systems"] = len(systems)
+    v = tlc.validate_traces(run.wd, "Trace_TreeGen", res, jvms=12, tag="treegen", timeout=3000, heap="4g")
+    run.add_verdicts(v, "Trace_TreeGen (TLC-chosen specifications: %s)" % "/".join(what))
+    run.rejects(v, {t["tid"]: t for t in res}, lambda tr, r: "tree-universe/" + tr["events"][r["event"] - 1]["op"])
+    return v
+
+
+def relabel(d, rnd):
+    """The same system with its internal classes renamed by a permutation and the children of every union / product
+    permuted: an isomorphic specification (when the root goes to the root)."""
+    sysm = d["sys"]
+    ni = len(sysm) - 2
+    perm = list(range(1, ni + 1))
+    rest = perm[1:]
+    rnd.shuffle(rest)
+    perm = [1] + rest  # the root stays the root
+    m = {old: new for old, new in zip(range(1, ni + 1), perm)}
+    m.update({ni + 1: ni + 1, ni + 2: ni + 2})
+    out = [None] * len(sysm)
+    for old, node in enumerate(sysm, start=1):
+        ch = [m[c] for c in node["ch"]]
+        rnd.shuffle(ch)
+        out[m[old] - 1] = {"k": node["k"], "ch": ch, "sz": node["sz"]}
+    return {"sys": out, "counts": []}
+
+
+def tree_traces(run: Run, tier: str, seed: int):
+    systems = tree_systems(run, tier, seed)
+    rnd = random.Random(seed + 21)
+    by_n = {}
+    for d in systems:
+        by_n.setdefault(len(d["sys"]), []).append(d)
+    jobs = []
+    max_n = 4
+    k = 0
+    for n, group in sorted(by_n.items()):
+        # every system against itself and against a relabelled copy; then pairs
+        for d in group:
+            jobs.append(("t%d" % k, d, d, max_n)); k += 1
+            jobs.append(("t%d" % k, d, relabel(d, rnd), max_n)); k += 1
+        if tier == "thorough" and n == 4:
+            pairs = [(a, b) for a in group for b in group]
+        else:
+            pairs = [(rnd.choice(group), rnd.choice(group)) for _ in range(2500 if tier == "quick" else 40000)]
+        for a, b in pairs:
+            jobs.append(("t%d" % k, a, b, max_n)); k += 1
+    res = pmap(tree_pair_job, jobs, procs=16, chunk=64)
+    run.extra["tree_universe_systems"] = len(systems)
+    run.extra["tree_universe_pairs"] = len(res)
+    run.extra["tree_universe_bijections"] = sum(r["nbij"] for r in res)
+    for r in res:
+        run.events += len(r["events"])
+        if r["nbij"]:
+            run.nt("tree:" + r["tid"])
+    v = tlc.validate_traces(run.wd, "Trace_TreeIso", res, jvms=14, tag="trees", timeout=5000, heap="4g")
+    run.add_verdicts(v, "Trace_TreeIso (TLC-chosen specifications: isomorphism test and bijection tables)")
+    fixture = [r for r in v.rejects if r["clause"].startswith("FIXTURE")]
+    if fixture:
+        raise tlc.MachineryError("fixture validation failed: %r" % fixture[:3])
+    run.rejects(v, {t["tid"]: t for t in res}, lambda tr, r: "tree-universe/" + tr["events"][r["event"] - 1]["op"])
+    return v
+
+
 def judge_iso(run: Run, traces, label):
     v = tlc.validate_traces(run.wd, "Trace_Iso", traces, jvms=14, tag=label, timeout=3000)
     run.add_verdicts(v, "Trace_Iso " + label)
@@ -333,6 +491,7 @@ def run(tier: str, seed: int, pid="C12") -> int:
         ex = next(t for t in traces if t["nbij"])
         run_.sample({"tid": ex["tid"], "bij_n3": next(e for e in ex["events"] if e["op"] == "bij" and e["n"] == 3)})
         judge_iso(run_, traces, "pairs")
+        tree_traces(run_, tier, seed)
         run_.rule = ("ordered pairs of specifications from a pool (start classes x {plain,sym,inf,syminf} x three rule databases), mirror "
                      "pairs forced in; non-trivial = a bijection was constructed (its tables for n <= 6 are judged)")
     else:
